@@ -87,7 +87,7 @@ func ruleC12(r *Report) {
 	r.Rule("C12.close", "deflate and base64 writers are closed, inner first, before the encoded buffer is read; reader and writer use the same base64 alphabet", 3)
 	r.Rule("C12.ids", "every message ID is \"id-\" + hex of randomBytes(n) with constant n >= 16; randomBytes fills a fresh n-byte buffer with io.ReadFull from the configured RandReader and does not return on error", 4)
 	r.Rule("C12.fields", "request/logout message fields come from the documented sources (destination parameter, ACS URL, entity ID or metadata URL, name-ID format, ForceAuthn, RequestedAuthnContext, given IDs)", 8)
-	r.Rule("C12.escape", "the message builders serialise with canonical escaping, so CR/TAB/LF in name IDs and attribute values survive parsing", 4)
+	r.Rule("C12.escape", "the message builders serialise with canonical escaping and the attribute '>' escaper, so CR/TAB/LF and \"]]>\" in name IDs and attribute values survive parsing", 4)
 	r.Rule("C12.form-buffer", "the bytes returned by the POST-form builders come from a buffer owned by that call", 1)
 
 	checkC12Query(r, p)
@@ -493,10 +493,155 @@ func checkC12Fields(r *Report, p *Prog) {
 	})
 }
 
-// checkEscape: every serialisation in the selected functions uses a document whose WriteSettings have
-// CanonicalText and CanonicalAttrVal set (shared by C07 and C12).
+// ---- serialisation of etree documents (shared by C01, C06, C07, C08, C12) ----
+
+// serialiserInfo describes a module helper (doc *etree.Document, ...) ([]byte, error) whose bytes are the document's own
+// WriteToBytes, possibly passed through module byte filters.
+type serialiserInfo struct {
+	fn        *ssa.Function
+	docParam  int
+	canonical bool   // canonical WriteSettings dominate the write
+	settings  string // description
+	escaper   *ssa.Function
+	escaped   bool // every returned buffer passed through a filter that emits "&gt;"
+}
+
+func isWriteCall(c *ssa.Call) bool {
+	if c.Call.StaticCallee() == nil {
+		return false
+	}
+	nm := c.Call.StaticCallee().String()
+	return nm == "(*"+etreePath+".Document).WriteTo" || nm == "(*"+etreePath+".Document).WriteToBytes" || nm == "(*"+etreePath+".Document).WriteToString"
+}
+
+// emitsGT: a module function []byte -> []byte that contains the constant "&gt;" (the attribute '>' escaper role).
+func emitsGT(p *Prog, fn *ssa.Function) bool {
+	if fn == nil || !p.InLibrary(fn) || fn.Signature.Params().Len() != 1 || fn.Signature.Results().Len() != 1 {
+		return false
+	}
+	if fn.Signature.Params().At(0).Type().String() != "[]byte" || fn.Signature.Results().At(0).Type().String() != "[]byte" {
+		return false
+	}
+	for _, b := range fn.Blocks {
+		for _, in := range b.Instrs {
+			for _, op := range in.Operands(nil) {
+				if op == nil || *op == nil {
+					continue
+				}
+				if s, ok := constStr(*op); ok && s == "&gt;" {
+					return true
+				}
+			}
+		}
+	}
+	return false
+}
+
+var serialiserCache = map[*Prog]map[*ssa.Function]*serialiserInfo{}
+
+func serialisers(p *Prog) map[*ssa.Function]*serialiserInfo {
+	if m, ok := serialiserCache[p]; ok {
+		return m
+	}
+	out := map[*ssa.Function]*serialiserInfo{}
+	serialiserCache[p] = out
+	for _, fn := range p.modFns {
+		if !p.InLibrary(fn) || fn.Signature.Results().Len() != 2 || fn.Signature.Results().At(0).Type().String() != "[]byte" || errIndex(fn) != 1 {
+			continue
+		}
+		dp := -1
+		for i, prm := range fn.Params {
+			if typeIs(prm.Type(), etreePath, "Document") {
+				dp = i
+			}
+		}
+		if dp < 0 {
+			continue
+		}
+		var w *ssa.Call
+		for _, c := range methodCallsOn(fn, "(*"+etreePath+".Document).WriteToBytes") {
+			if c.Call.Args[0] == ssa.Value(fn.Params[dp]) {
+				w = c
+			}
+		}
+		if w == nil {
+			continue
+		}
+		info := &serialiserInfo{fn: fn, docParam: dp, escaped: true}
+		okAll, n := true, 0
+		for _, b := range fn.Blocks {
+			rt, ok := b.Instrs[len(b.Instrs)-1].(*ssa.Return)
+			if !ok || b == fn.Recover {
+				continue
+			}
+			v := Resolve(rt.Results[0])
+			if isNilConst(v) {
+				continue
+			}
+			n++
+			for _, lf := range rootLeaves(v, map[ssa.Value]bool{}) {
+				if isNilConst(lf) {
+					continue
+				}
+				cur := lf
+				viaGT := false
+				for k := 0; k < 3; k++ {
+					if c, ok := cur.(*ssa.Call); ok && c.Call.StaticCallee() != nil && len(c.Call.Args) == 1 && p.InLibrary(c.Call.StaticCallee()) {
+						if emitsGT(p, c.Call.StaticCallee()) {
+							viaGT = true
+							info.escaper = c.Call.StaticCallee()
+						}
+						cur = c.Call.Args[0]
+						continue
+					}
+					break
+				}
+				if ex, ok := cur.(*ssa.Extract); !ok || ex.Index != 0 || ex.Tuple != ssa.Value(w) {
+					okAll = false
+				}
+				if !viaGT {
+					info.escaped = false
+				}
+			}
+		}
+		if !okAll || n == 0 {
+			continue
+		}
+		a := NewAnalysis(p)
+		info.canonical, info.settings = canonicalSettings(p, fn, a.Ctx(fn), fn.Params[dp], w)
+		out[fn] = info
+	}
+	return out
+}
+
+// serialisationOf: v is the byte result of serialising an etree document in the enclosing function, directly or through
+// a serialiser helper; returns the document value and a description.
+func serialisationOf(p *Prog, v ssa.Value) (ssa.Value, *ssa.Call, string) {
+	ex, ok := v.(*ssa.Extract)
+	if !ok || ex.Index != 0 {
+		return nil, nil, ""
+	}
+	c, ok := ex.Tuple.(*ssa.Call)
+	if !ok || c.Call.StaticCallee() == nil {
+		return nil, nil, ""
+	}
+	if calleeIs(c, "(*"+etreePath+".Document).WriteToBytes") {
+		return c.Call.Args[0], c, "Document.WriteToBytes"
+	}
+	if info := serialisers(p)[c.Call.StaticCallee()]; info != nil {
+		return c.Call.Args[info.docParam], c, shortFn(info.fn) + " (Document.WriteToBytes of its argument)"
+	}
+	return nil, nil, ""
+}
+
+// checkEscape: every serialisation in the selected functions (a) uses a document whose WriteSettings have CanonicalText
+// and CanonicalAttrVal set and (b) passes the bytes through the module's attribute '>' escaper before they leave the
+// function: encoding/xml refuses "]]>" even inside attribute values, and canonical attribute escaping leaves '>' raw
+// (writer/reader escape-table agreement; shared by C07 and C12).
 func checkEscape(r *Report, p *Prog, rule string, sel func(*ssa.Function) bool) {
 	n := 0
+	sers := serialisers(p)
+	checkedHelper := map[*ssa.Function]bool{}
 	for _, fn := range p.modFns {
 		if !p.InLibrary(fn) || !sel(fn) {
 			continue
@@ -509,15 +654,46 @@ func checkEscape(r *Report, p *Prog, rule string, sel func(*ssa.Function) bool) 
 				if !ok || c.Call.StaticCallee() == nil {
 					continue
 				}
-				nm := c.Call.StaticCallee().String()
-				if !(nm == "(*"+etreePath+".Document).WriteTo" || nm == "(*"+etreePath+".Document).WriteToBytes" || nm == "(*"+etreePath+".Document).WriteToString") {
+				if info := sers[c.Call.StaticCallee()]; info != nil {
+					n++
+					r.Fn(p.FnName(fn))
+					cons := fmt.Sprintf("%s: serialisation with canonical escaping", p.FnName(fn))
+					r.Check(info.canonical, rule, cons, p.InstrPos(in), "through "+shortFn(info.fn)+": "+info.settings, "the tree is written by "+shortFn(info.fn)+" with etree's default escaping ("+info.settings+"): CR in text and TAB/LF/CR in attribute values are emitted raw and normalised away by the parser on the other side")
+					if !checkedHelper[info.fn] {
+						checkedHelper[info.fn] = true
+						r.Fn(p.FnName(info.fn))
+						esc := "-"
+						if info.escaper != nil {
+							esc = shortFn(info.escaper)
+						}
+						r.Check(info.escaped, rule, fmt.Sprintf("%s: '>' escaped in attribute values", p.FnName(info.fn)), p.Pos(info.fn.Pos()), "result passed through "+esc, "the serialised bytes are returned without the attribute '>' escaper: a \"]]>\" in an attribute value (attribute names, formats, session index) is written raw and encoding/xml refuses the document")
+					}
 					continue
+				}
+				if !isWriteCall(c) {
+					continue
+				}
+				if sers[fn] != nil {
+					continue // the helper's own write, judged above
 				}
 				n++
 				r.Fn(p.FnName(fn))
 				doc := c.Call.Args[0]
 				ok2, detail := canonicalSettings(p, fn, fc, doc, c)
-				r.Check(ok2, rule, fmt.Sprintf("%s: serialisation with canonical escaping", p.FnName(fn)), p.InstrPos(in), detail, "the tree is written with etree's default escaping ("+detail+"): CR in text and TAB/LF/CR in attribute values are emitted raw and normalised away by the parser on the other side")
+				cons := fmt.Sprintf("%s: serialisation with canonical escaping", p.FnName(fn))
+				r.Check(ok2, rule, cons, p.InstrPos(in), detail, "the tree is written with etree's default escaping ("+detail+"): CR in text and TAB/LF/CR in attribute values are emitted raw and normalised away by the parser on the other side")
+				// direct write: the bytes must still pass the '>' escaper in this function
+				escaped := false
+				for _, ref := range *c.Referrers() {
+					if ex, ok := ref.(*ssa.Extract); ok && ex.Index == 0 {
+						for _, r2 := range *ex.Referrers() {
+							if c2, ok := r2.(*ssa.Call); ok && emitsGT(p, c2.Call.StaticCallee()) {
+								escaped = true
+							}
+						}
+					}
+				}
+				r.Check(escaped, rule, fmt.Sprintf("%s: '>' escaped in attribute values", p.FnName(fn)), p.InstrPos(in), "bytes passed through the escaper", "the document is written directly (not through the module's serialiser) and its bytes do not pass the attribute '>' escaper: a \"]]>\" in an attribute value is written raw and encoding/xml refuses the document")
 			}
 		}
 	}
